@@ -16,6 +16,7 @@ import (
 	_ "embed"
 	"fmt"
 	"go/ast"
+	"go/parser"
 	"go/token"
 	"go/types"
 	"os"
@@ -71,17 +72,26 @@ func normalise(dir string, env []string) (*normResult, error) {
 		cfg := &packages.Config{Mode: mode, Dir: dir, Env: env, Fset: token.NewFileSet(), Overlay: res.Overlay}
 		return packages.Load(cfg, patterns...)
 	}
-	pkgs, err := loadPkgs("./...")
+	// cheap pre-scan (file lists + parsing only): which packages declare functions unknown to the inventory?
+	lcfg := &packages.Config{Mode: packages.NeedName | packages.NeedFiles | packages.NeedCompiledGoFiles | packages.NeedModule, Dir: dir, Env: env}
+	pkgs, err := packages.Load(lcfg, "./...")
 	if err != nil {
 		return nil, err
 	}
-	// packages that declare functions unknown to the inventory
 	var work []string
+	pfset := token.NewFileSet()
 	for _, p := range pkgs {
 		if p.Module == nil || p.Module.Path != modPath || strings.Contains(p.PkgPath, "/internal/db/") {
 			continue
 		}
-		for _, f := range p.Syntax {
+		for _, name := range p.CompiledGoFiles {
+			if !strings.HasSuffix(name, ".go") {
+				continue
+			}
+			f, perr := parser.ParseFile(pfset, name, nil, parser.SkipObjectResolution)
+			if perr != nil {
+				continue // the typed load reports it
+			}
 			for _, d := range f.Decls {
 				if fd, ok := d.(*ast.FuncDecl); ok && !inventory[inventoryKey(p.PkgPath, fd)] {
 					work = append(work, p.PkgPath)
